@@ -11,7 +11,12 @@ from .exceptions import UnexpectedError
 if six.PY3:
     from typing import List, Any, Dict  # noqa: F401 (used for typing)
 
-from mpilot.exceptions import MissingParameters, NoSuchParameter, MPilotError
+from mpilot.exceptions import (
+    MissingParameters,
+    NoSuchParameter,
+    MPilotError,
+    RecursiveModelStructure,
+)
 from mpilot.params import TupleParameter
 
 
@@ -75,6 +80,7 @@ class Command(object):
         self.argument_lines = {arg.name: arg.lineno for arg in arguments}
 
         self.is_finished = False
+        self.is_running = False
         self._result = None
 
     @property
@@ -132,6 +138,10 @@ class Command(object):
 
     def run(self):
         if not self.is_finished:
+            if self.is_running:
+                # This command is (indirectly) waiting for its own result
+                raise RecursiveModelStructure(self.lineno)
+
             self.is_running = True
 
             try:
@@ -141,10 +151,12 @@ class Command(object):
                     )
                 )
             except Exception as exc:
+                self.is_running = False
                 if isinstance(exc, MPilotError):
                     raise
                 raise_from(UnexpectedError(exc, format_exc(), self.lineno), exc)
 
+            self.is_running = False
             self.is_finished = True
 
     def execute(self, **kwargs):
